@@ -14,6 +14,7 @@ package main
 
 import (
 	"fmt"
+	"os"
 	"go/token"
 	"go/types"
 	"sort"
@@ -671,4 +672,191 @@ func c13ParseChecked(c *Ctx, pr *PropertyRun) {
 	}
 }
 
-func c13ReqErrors(c *Ctx, pr *PropertyRun) {}
+// requestTaint runs E1 in taint mode: sources are the fields of
+// *http.Request / url.URL and every field of a request-decoded wire struct.
+func requestTaint(c *Ctx, entries []*ssa.Function, extra []*ssa.Function) *FFResult {
+	isSrc := func(n *types.Named) bool {
+		if isWireLike(n) {
+			return true
+		}
+		if n.Obj().Pkg() == nil {
+			return false
+		}
+		switch n.Obj().Pkg().Path() + "." + n.Obj().Name() {
+		case "net/http.Request", "net/url.URL":
+			return true
+		}
+		return false
+	}
+	return RunFieldFlow(c, FFConfig{Entries: entries, IsSource: isSrc, ExtraScope: extra,
+		CutCall: func(site ssa.CallInstruction) bool {
+			switch calleeName(site.Common()) {
+			case "reflect.TypeOf", "reflect.ValueOf":
+				return true
+			}
+			return false
+		}})
+}
+
+func tainted(t *FFResult, v ssa.Value) bool {
+	for l := range t.vals[v] {
+		if !l.isAddr() {
+			return true
+		}
+	}
+	return false
+}
+
+func c13ReqErrors(c *Ctx, pr *PropertyRun) {
+	p := c.P
+	r := NewRule("C13", "C13.req-errors-4xx", "every request-caused error origin that can reach ServeError carries a 4xx status label (E3: request taint + error provenance with summaries)")
+	pr.Rules = append(pr.Rules, r)
+	serveErr := p.MustFunc(r, pkgInternal, "ServeError")
+	if serveErr == nil {
+		return
+	}
+	entries := p.serverEntries()
+	ctl := controlFuncs(p, pkgInternal, "zzVerifControlErr")
+	taint := requestTaint(c, entries, ctl)
+	r.Count("taint_scope_functions", len(taint.Scope))
+	debugExplain(taint)
+	if q := os.Getenv("GWVALS"); q != "" {
+		for v, ls := range taint.vals {
+			if v.Parent() != nil && fnKey(v.Parent())+":"+v.Name() == q {
+				fmt.Println("   vals:", q, labelNames(ls))
+			}
+		}
+	}
+	ep := newErrProv(c)
+	type sinkItem struct {
+		site ssa.CallInstruction
+		it   provItem
+	}
+	var items []sinkItem
+	cg := c.CG()
+	seen := cg.Reach(append(append([]*ssa.Function{}, entries...), ctl...), moduleOnly(p))
+	var fns []*ssa.Function
+	for fn := range seen {
+		if p.InModule(fn) && len(fn.Blocks) > 0 {
+			fns = append(fns, fn)
+		}
+	}
+	sort.Slice(fns, func(i, j int) bool { return fnKey(fns[i]) < fnKey(fns[j]) })
+	ep.solve(func() {
+		items = items[:0]
+		for _, fn := range fns {
+			eachCall(fn, func(site ssa.CallInstruction) {
+				if site.Common().StaticCallee() != serveErr || len(site.Common().Args) < 2 {
+					return
+				}
+				for _, it := range ep.prov(fn, site.Common().Args[1], site.Block(), map[ssa.Value]bool{}) {
+					items = append(items, sinkItem{site, it})
+				}
+			})
+		}
+	})
+	ctrlCache := map[*ssa.Function]map[*ssa.BasicBlock][]ctrlDep{}
+	underTaintedCond := func(o *errOrigin) (string, bool) {
+		if o.Site == nil || o.Site.Block() == nil {
+			return "", false
+		}
+		cd := ctrlCache[o.Fn]
+		if cd == nil {
+			cd = transitiveControlDeps(o.Fn)
+			ctrlCache[o.Fn] = cd
+		}
+		for _, d := range cd[o.Site.Block()] {
+			if cond := ifCond(d.Branch); cond != nil && tainted(taint, cond) {
+				return p.instrPos(d.Branch.Instrs[len(d.Branch.Instrs)-1]), true
+			}
+		}
+		return "", false
+	}
+	dedup := map[string]bool{}
+	nReq := 0
+	for _, si := range items {
+		it := si.it
+		if it.O == nil {
+			continue // parameter of an entry point
+		}
+		o := it.O
+		r.Role("origin-reaching-ServeError")
+		class, why := "OTHER", ""
+		switch o.Kind {
+		case "ext":
+			class = "EXTERNAL"
+			if parseCalls[o.Callee] {
+				if site, ok := o.Site.(ssa.CallInstruction); ok {
+					cc := site.Common()
+					args := append([]ssa.Value{}, cc.Args...)
+					if cc.IsInvoke() {
+						args = append(args, cc.Value)
+					}
+					for _, a := range args {
+						if tainted(taint, a) {
+							class, why = "REQ", "parse/decode of request data"
+						}
+					}
+				}
+			}
+		case "new", "lit":
+			if at, ok := underTaintedCond(o); ok {
+				class, why = "REQ", "constructed under a request-dependent condition ("+at+")"
+			}
+		case "backend":
+			class = "BACKEND"
+		}
+		k := o.key() + "|" + fmt.Sprint(it.Code) + "|" + it.Via
+		if p.isControlPos(si.site.Pos()) {
+			k += "|zzVerifControlErr"
+		}
+		if dedup[k] {
+			continue
+		}
+		dedup[k] = true
+		labelled := it.Code >= 400 && it.Code < 500
+		r.Sample(map[string]interface{}{"origin": o.key(), "pos": posOf(p, o), "class": class, "label": it.Code, "via": it.Via})
+		if class != "REQ" {
+			continue
+		}
+		nReq++
+		r.Role("request-caused-origin")
+		if it.Code == -1 {
+			r.Ob(true)
+			r.Note("origin %s is labelled with a non-constant status code (via %s): accepted", o.key(), it.Via)
+			continue
+		}
+		r.Ob(labelled)
+		if !labelled {
+			lab := "no status label (ServeError answers 500)"
+			if it.Code != 0 {
+				lab = fmt.Sprintf("status %d", it.Code)
+			}
+			vk := "unlabelled|" + o.key() + "|via=" + it.Via
+			if p.isControlPos(si.site.Pos()) {
+				vk += "|zzVerifControlErr"
+			}
+			r.Violation(vk, posOf(p, o),
+				fmt.Sprintf("request-caused error (%s: %s in %s) reaches ServeError with %s; returned through: %s", why, o.Callee, fnKey(o.Fn), lab, it.Via),
+				map[string]interface{}{"origin": o.key(), "via": it.Via, "sink": p.instrPos(si.site)})
+		}
+	}
+	r.Count("origins", len(dedup))
+	r.Count("request_caused", nReq)
+	r.RequireRole("origin-reaching-ServeError", "request-caused-origin")
+	if p.Control {
+		r.ExpectControl("zzVerifControlErr")
+	}
+}
+
+func lastVia(v string) string {
+	parts := strings.Split(v, " > ")
+	return parts[len(parts)-1]
+}
+
+func posOf(p *Program, o *errOrigin) string {
+	if o.Site != nil {
+		return p.instrPos(o.Site)
+	}
+	return p.Pos(o.Fn.Pos())
+}
